@@ -17,10 +17,29 @@ DH = dict(
     unwind=60,
     cases=[dict(name="p%d_y%d" % (pb, yu), defs={"VF_PB": pb, "VF_YU": yu}) for pb, yu in ((9, 2), (9, 1), (8, 1), (1, 1), (9, 0))],
 )
-HARNESSES = [RSA]  # DH: no verdict within the cap yet (heap-backed bignums), see DESIGN.md
+PSS = dict(
+    name="pss_decode", src="pss_decode.c", checks=COMMON["MEMCHECKS"],
+    renames={"crypto/keyformat/pkcs.c": ["pkcs_1_mgf1"]}, units=["crypto/common/alg_info.c"],
+    functions=["psPkcs1PssDecode", "psPssHashAlgToHashLen"], sources=["crypto/keyformat/pkcs.c"],
+    assumptions=["pss_decode: MGF1 output and the final SHA-1 value are arbitrary bytes (stubs); EM of 26 bytes (SHA-1, salt 0..4 bytes), modulus bit length 8*26, 8*26-1 and 8*26-7 enumerated; allocation succeeds"],
+    unwind=30,
+    cases=[dict(name="bits%d" % b, defs={"VF_ML": 26, "VF_BITS": b}) for b in (208, 207, 201)],
+)
+ECP = dict(
+    name="ecdsa_sig_parse", src="ecdsa_sig_parse.c", checks=COMMON["MEMCHECKS"],
+    units=["crypto/keyformat/asn1.c"],
+    functions=["psEccDsaVerify", "getAsnSequence", "getAsnLength"], sources=["crypto/pubkey/ecc_pub.c", "crypto/keyformat/asn1.c"],
+    assumptions=["ecdsa_sig_parse: signature buffer of exactly siglen <= 12 bytes, arbitrary contents; pstm_read_asn is a checking stub (window inside the buffer; consumes an arbitrary well-formed INTEGER or fails); the computation after parsing is cut off by a failing first allocation"],
+    undefined_ok=["pstm_init_size", "eccNewPoint", "pstm_read_radix", "pstm_cmp", "pstm_read_unsigned_bin", "pstm_invmod", "pstm_mulmod", "eccMulmod", "pstm_init", "pstm_montgomery_setup",
+                  "pstm_montgomery_calc_normalization", "pstm_copy", "eccProjectiveDblPoint", "eccProjectiveAddPoint", "eccMap", "pstm_mod", "eccFreePoint", "pstm_set", "pstm_to_unsigned_bin",
+                  "pstm_unsigned_bin_size", "psEccGenKey", "pstm_add", "pstm_iszero", "psGetPrngLocked", "pstm_mul_comba", "pstm_read_unsigned_bin", "pstm_count_bits", "pstm_sub", "pstm_cmp_d", "pstm_clamp"],
+    unwind=14,
+    cases=[dict(name="n12", defs={"VF_N": 12})],
+)
+HARNESSES = [RSA, PSS, ECP]  # DH: no verdict within the cap yet (heap-backed bignums), see DESIGN.md
 PROPERTY = dict(level='model_checking',
-    claim='PKCS#1 v1.5 signature decoding accepts a recovered block iff it is the unique encoding 00 01 FF..FF 00 DigestInfo H (NULL or absent parameters) and returns exactly H; a signature whose length differs from the modulus length is refused before the key is used. The RSA operation is an arbitrary-block stub.',
+    claim='PKCS#1 v1.5 signature decoding accepts a recovered block iff it is the unique encoding 00 01 FF..FF 00 DigestInfo H (NULL or absent parameters) and returns exactly H; a signature whose length differs from the modulus length is refused before the key is used. The RSA operation is an arbitrary-block stub. EMSA-PSS verification accepts exactly the RFC 8017 9.1.2 encodings (trailer, zero leftmost bits, 00..00 01 salt, recomputed hash equal to H), MGF1 and hash as arbitrary-output stubs.',
     bounds='modulus 96 bytes (thorough 128); SHA-1/256/384/512',
-    outside='RSA-PSS, ECDSA r/s range, DH public value range (harness exists, no verdict within the cap), point validation, the group arithmetic itself',
+    outside='PSS with other hashes / sizes than SHA-1 and a 26-byte EM (same code path), ECDSA r/s range (only the DER parse window is decided), DH public value range (harness exists, no verdict within the cap), point validation, the group arithmetic itself',
     explanation='PKCS#1 v1.5 signature decoding accepts a recovered block iff it is the unique encoding 00 01 FF..FF 00 DigestInfo H (NULL or absent parameters) and returns exactly H; a signature whose length differs from the modulus length is refused before the key is used. The RSA operation is an arbitrary-block stub.',
     assumptions=[])
